@@ -243,6 +243,7 @@ FIT_BAD = {
     "limit_unknown": lambda f: f.limit_parameter("nope", 0.0, 1.0),
     "limit_none": lambda f: f.limit_parameter(f.parameter_names[0]),
     "limit_non_numeric": lambda f: f.limit_parameter(f.parameter_names[0], "low", 1.0),
+    "unlimit_unknown": lambda f: f.unlimit_parameter("nope"),
     "fix_unknown": lambda f: f.fix_parameter("nope"),
     "fix_unknown_value": lambda f: f.fix_parameter("nope", 1.0),
     "release_unknown": lambda f: f.release_parameter("nope"),
@@ -269,7 +270,7 @@ def gen_fit(tier, seed):
             yield {"kind": "indexed_poisson", "used": used, "call": bad}
     for bad in ("reserved_argument_name", "unknown_cost_function", "poisson_ctor_negative", "reserved_name_in_model_function_object:xy", "reserved_name_in_model_function_object:indexed", "reserved_name_in_model_function_object:hist"):
         yield {"kind": "ctor", "used": False, "call": bad}
-    for bad in ("multi_disable_unknown", "multi_fix_unknown", "multi_set_unknown", "multi_constraint_unknown"):
+    for bad in ("multi_disable_unknown", "multi_fix_unknown", "multi_set_unknown", "multi_constraint_unknown", "multi_shared_source_wrong_size", "multi_shared_source_negative"):
         yield {"kind": "multi", "used": False, "call": bad}
 
 
@@ -301,10 +302,20 @@ def fit(inp):
         before = (snap_fit(m1), snap_fit(m2), [list(map(float, mf.parameter_values)), sorted(mf._fitter.fixed_parameters), float(mf.cost_function_value)])
         try:
             {"multi_disable_unknown": lambda: mf.disable_error("nope"), "multi_fix_unknown": lambda: mf.fix_parameter("nope"), "multi_set_unknown": lambda: mf.set_parameter_values(nope=1.0),
-             "multi_constraint_unknown": lambda: mf.add_parameter_constraint("nope", 1.0, 0.1)}[inp["call"]]()
+             "multi_constraint_unknown": lambda: mf.add_parameter_constraint("nope", 1.0, 0.1),
+             "multi_shared_source_wrong_size": lambda: mf.add_error([0.1] * (len(m1.data_container.y) + 3), fits=[0, 1], axis="y", name="shared"),
+             "multi_shared_source_negative": lambda: mf.add_error(-0.1, fits=[0, 1], axis="y", name="shared")}[inp["call"]]()
             return {"got": "accepted", "expected": "exception", "witness_class": "accepted:" + inp["call"]}
         except Exception:
             pass
+        if inp["call"].startswith("multi_shared_source"):          # the refused source is registered nowhere: the corrected call under the same name goes through
+            if "shared" in mf._shared_error_dicts or any("shared" in m_.data_container._error_dicts for m_ in (m1, m2)):
+                return {"got": "the refused source is still registered", "expected": "registered nowhere", "witness_class": f"changed:{inp['call']}:registered"}
+            try:
+                mf.add_error(0.1, fits=[0, 1], axis="y", name="shared")
+            except Exception as e:
+                return {"got": "corrected call refused: " + repr(e)[:120], "expected": "accepted", "witness_class": f"changed:{inp['call']}:name-stays-taken"}
+            return None
         after = (snap_fit(m1), snap_fit(m2), [list(map(float, mf.parameter_values)), sorted(mf._fitter.fixed_parameters), float(mf.cost_function_value)])
         if after != before:
             return {"got": str(after)[:300], "expected": str(before)[:300], "witness_class": f"changed:{inp['call']}"}
